@@ -3,6 +3,7 @@ C19 — Convenience accessors and coap-message views agree with raw message
 state.  Model: Model/Request.lean (`getMethodTable`, `getStatusTable` are
 regenerated from the source), Model/Packet.lean.
 -/
+import CoapLite.Lemmas.Shape.Api
 import CoapLite.Lemmas.Request
 import CoapLite.Lemmas.MsgMut
 import CoapLite.Lemmas.Shape.Request
@@ -189,5 +190,14 @@ theorem state_shape_matches_source :
     Shapes.header = [("code", "MessageClass"), ("message_id", "u16"), ("ver_type_tkl", "u8")] ∧
     Shapes.headerRaw = [("code", "u8"), ("message_id", "u16"), ("ver_type_tkl", "u8")] :=
   ⟨ShapeTie.no_global_state, ShapeTie.coapRequest, ShapeTie.coapResponse, ShapeTie.packet, ShapeTie.header, ShapeTie.headerRaw⟩
+
+/-- the public entry points of the modelled source files – re-read from /repo/src on every run – are
+exactly the ones the model was written against (`Lemmas/Shape/Api.lean`): a new public way to change the
+state this property is about, or a receiver that became `&mut self`, breaks this theorem -/
+theorem api_surface_matches_source :
+    Shapes.apiRequest = ShapeTie.expectedApiRequest ∧
+    Shapes.apiResponse = ShapeTie.expectedApiResponse ∧
+    Shapes.apiPacket = ShapeTie.expectedApiPacket :=
+  ⟨ShapeTie.apiRequest, ShapeTie.apiResponse, ShapeTie.apiPacket⟩
 
 end CoapLite.C19
